@@ -356,6 +356,11 @@ func targetFile(k *listKind, targets []string) string {
 		} else {
 			body = head + "\n" + strings.Join(els, "\n") + "\n" + strings.Join(k.Tail, "\n")
 		}
+		if k.Name == "call-args" && len(els) >= 2 && i%5 == 3 {
+			// the last argument is spread over the variadic parameters: another call than the one without the spread,
+			// whatever a trailing elision of the pattern stands for
+			body = head + strings.Join(els, ", ") + "..." + strings.Join(k.Tail, "\n")
+		}
 		if k.Name == "results-unnamed" && len(els) == 1 && i%2 == 0 {
 			// a single unnamed result without its optional parentheses: the same declaration
 			body = strings.Replace(body, "() ("+els[0]+") {", "() "+els[0]+" {", 1)
